@@ -205,6 +205,13 @@ class Monitors:
                 self.fail("C03 execution(s) %s RUNNING with nothing queued, unacked, pending or armed" % running)
             if any(o[0] == "double-ack" for o in b.oplog):
                 self.fail("C03 a delivery was acknowledged twice")
+            # once every execution is terminal and nothing is in flight, no timer of theirs may still be armed
+            # (a cancelled Task's time-out timer, a cancelled Wait): "holds no per-execution state (... timers)"
+            if per and not running and not any(b.queues.values()) and not b.unacked and not inst.td.pending_requests and not inst.td.orphaned_responses:
+                left = [t for t in b.timers if not inst.is_heartbeat(t) and getattr(t[2], "__name__", "") not in ("handle_orphaned_responses",)
+                        and "heartbeat" not in getattr(t[2], "__qualname__", "")]
+                if left:
+                    self.fail("C03 %d timer(s) still armed after every execution has ended: %s" % (len(left), [getattr(t[2], "__qualname__", repr(t[2]))[-60:] for t in left]))
 
     def check_history(self, arn, hist, rec, sts, term):
         prev_ts = None
